@@ -351,7 +351,23 @@ def main(run):
     stats = dict(expressions=len(exprs), ops={"+": 0, "*": 0}, parts={}, with_zero_component=0, dims={"1d": 0, "2d": 0},
                  with_dispersity=0, magnetic=0)
     evals, distinct = 0, set()
+    evals_box = [0]
     for expr in exprs:
+        try:
+            _one_expression(run, expr, rng, thorough, nrep, cases, metas, stats, distinct, evals_box)
+        except Exception as exc:  # noqa  (an expression that cannot even be evaluated is a finding with that expression as input)
+            import traceback
+            run.add(Finding("C08:error:%s" % expr, "%s: evaluating the mixture and its parts raised %s: %s" % (expr, type(exc).__name__, exc),
+                            dict(expr=expr, traceback=traceback.format_exc()[-1500:])))
+    evals = evals_box[0]
+    _finish(run, cases, metas, stats, distinct, evals)
+
+
+def _one_expression(run, expr, rng, thorough, nrep, cases, metas, stats, distinct, evals_box):
+    from sasmodels.core import load_model_info, build_model
+    from sasmodels.direct_model import call_kernel
+    evals = 0
+    if True:
         op, part_exprs = split_top(expr)
         cinfo = load_model_info(expr)
         part_infos = [load_model_info(e) for e in part_exprs]
@@ -446,6 +462,10 @@ def main(run):
                               parts=parts_out, expect=[float(x) for x in mix]))
             metas.append(desc)
             run.sample(dict(expr=expr, dim=dim, part_scales=pscales, zero_component=zero))
+    evals_box[0] += evals
+
+
+def _finish(run, cases, metas, stats, distinct, evals):
     traces = 0
     if cases:
         body = ";\n".join("(MkCase %s %s %s %s %s %s)" % (
